@@ -17,7 +17,7 @@ from pathlib import Path
 VERIF = Path(__file__).resolve().parents[1]
 REPO = Path(os.environ.get('PYTOUGH_REPO', '/repo'))
 LEAN = VERIF / 'lean'
-EVID = VERIF / 'evidence'
+EVID = Path(os.environ.get('PTV_EVIDENCE_DIR') or (VERIF / 'evidence'))   # seedtest points this elsewhere
 REPLAYS = VERIF / 'replays'
 KNOWN = VERIF / 'known_findings.json'
 GUARD = 'PYTOUGH_VERIF'
